@@ -24,6 +24,7 @@ type SolverStats struct {
 	CrossChecks int64
 	CrossDis    int64
 	CrossTimeNS int64
+	Watchdog    int64
 }
 
 var gStats SolverStats
@@ -40,6 +41,7 @@ type Session struct {
 	nq      int
 	// script of the current path (for cross-checking on other solvers)
 	script []string
+	gen    int // incremented on every watchdog restart
 }
 
 func solverArgs(name string) (string, []string) {
@@ -124,25 +126,44 @@ func (s *Session) ResetPath() {
 var syncCounter int64
 
 // roundtrip sends c (which yields output) and returns all lines up to a sync marker.
+// A watchdog kills a solver that ignores its own time limit; the session is then
+// restarted and brought back to the current path state, and the query counts as unknown.
 func (s *Session) roundtrip(c string) []string {
 	n := atomic.AddInt64(&syncCounter, 1)
 	marker := fmt.Sprintf("<<sync-%d>>", n)
 	s.raw(c)
 	s.raw(fmt.Sprintf("(echo \"%s\")", marker))
+	type res struct{ lines []string }
+	done := make(chan res, 1)
+	out := s.out
+	go func() {
+		var lines []string
+		for {
+			line, err := out.ReadString('\n')
+			line = strings.TrimRight(line, "\r\n")
+			if strings.Contains(line, marker) {
+				break
+			}
+			if line != "" {
+				lines = append(lines, line)
+			}
+			if err != nil {
+				lines = append(lines, "(error \"solver died: "+err.Error()+"\")")
+				break
+			}
+		}
+		done <- res{lines}
+	}()
 	var lines []string
-	for {
-		line, err := s.out.ReadString('\n')
-		line = strings.TrimRight(line, "\r\n")
-		if strings.Contains(line, marker) {
-			break
-		}
-		if line != "" {
-			lines = append(lines, line)
-		}
-		if err != nil {
-			lines = append(lines, "(error \"solver died: "+err.Error()+"\")")
-			break
-		}
+	select {
+	case r := <-done:
+		lines = r.lines
+	case <-time.After(time.Duration(s.timeout)*time.Millisecond + 10*time.Second):
+		s.cmd.Process.Kill()
+		<-done
+		atomic.AddInt64(&gStats.Watchdog, 1)
+		s.restart()
+		lines = []string{"unknown", "; watchdog: solver exceeded its time limit and was restarted"}
 	}
 	if s.log != nil {
 		for _, l := range lines {
@@ -150,6 +171,32 @@ func (s *Session) roundtrip(c string) []string {
 		}
 	}
 	return lines
+}
+
+// restart starts a fresh solver process and replays the current path script.
+func (s *Session) restart() {
+	s.gen++
+	s.in.Close()
+	s.cmd.Wait()
+	bin, args := solverArgs(s.name)
+	cmd := exec.Command(bin, args...)
+	in, _ := cmd.StdinPipe()
+	out, _ := cmd.StdoutPipe()
+	cmd.Stderr = cmd.Stdout
+	if err := cmd.Start(); err != nil {
+		panic(abort("solver restart failed: " + err.Error()))
+	}
+	s.cmd, s.in, s.out = cmd, in, bufio.NewReaderSize(out, 1<<16)
+	if s.name == "cvc5" {
+		s.raw("(set-logic ALL)")
+		s.raw(fmt.Sprintf("(set-option :tlimit-per %d)", s.timeout))
+	} else {
+		s.raw(fmt.Sprintf("(set-option :timeout %d)", s.timeout))
+	}
+	s.raw("(push 1)")
+	for _, c := range s.script {
+		s.raw(c)
+	}
 }
 
 type SatResult int
@@ -221,12 +268,17 @@ func (s *Session) account(r SatResult, kind string, t0 time.Time) {
 // CheckModel: like Check but on sat also returns the values of vars.
 func (s *Session) CheckModel(extra string, vars []string, kind string) (SatResult, map[string]string) {
 	t0 := time.Now()
+	gen := s.gen
 	s.raw("(push 1)")
 	if extra != "" {
 		s.raw("(assert " + extra + ")")
 	}
 	lines := s.roundtrip("(check-sat)")
 	r := parseSat(lines)
+	if s.gen != gen {
+		s.account(Unknown, kind, t0)
+		return Unknown, nil
+	}
 	s.account(r, kind, t0)
 	var model map[string]string
 	if r == Sat && len(vars) > 0 {
@@ -238,6 +290,9 @@ func (s *Session) CheckModel(extra string, vars []string, kind string) (SatResul
 				j = len(vars)
 			}
 			out := s.roundtrip("(get-value (" + strings.Join(vars[i:j], " ") + "))")
+			if s.gen != gen {
+				return Unknown, nil
+			}
 			parseValues(strings.Join(out, "\n"), model)
 		}
 	}
